@@ -69,6 +69,8 @@ func verifSandbox() (parent, dest string, check func()) {
 	before := outside()
 	check = func() {
 		vAssert(outside() == before, "an object was created or removed outside the destination directory")
+		st0, err0 := os.Lstat(dest)
+		vAssert(err0 == nil && st0.IsDir(), "the destination directory itself was removed or replaced (by a symlink?)")
 		b, err := os.ReadFile(parent + "/sentinel")
 		vAssert(err == nil && string(b) == "S", "a file outside the destination directory was modified")
 		b, err = os.ReadFile(parent + "/sib/inner")
@@ -167,7 +169,8 @@ func VerifC18_UnTarIndex() {
 }
 
 // VerifC18_Sequences: hostile element *sequences* - after the root entry, every step is the
-// solver's pick of: a file, a sub-directory entry, a symlink, or a goodbye (so goodbyes may
+// solver's pick of: a file, a sub-directory entry, a symlink, a goodbye, or a symlink / file
+// entry that is not preceded by a filename element (so goodbyes may
 // outnumber open directories, directories may be left open, entries may follow the root's
 // goodbye).  Names and targets are symbolic.
 func VerifC18_Sequences() {
@@ -179,7 +182,13 @@ func VerifC18_Sequences() {
 	a.entry(os.ModeDir | 0755)
 	n := 1 + vChoose("steps", steps)
 	for k := 0; k < n; k++ {
-		switch vChoose("element", 4) {
+		switch vChoose("element", 6) {
+		case 4: // an entry without a filename element: the decoder resolves it to the directory it is in
+			a.entry(os.ModeSymlink | 0777)
+			a.symlink(verifSymName("target", max))
+		case 5:
+			a.entry(0644)
+			a.payload([]byte("x"))
 		case 0:
 			a.filename(verifSymName("name", max))
 			a.entry(0644)
